@@ -444,8 +444,11 @@ func c10EvalBlockBuilt(w *mc.W, cas c10Block, built *c10Built) {
 				exact = false
 			}
 		}
-		if fmt.Sprint(r.indices) != fmt.Sprint(results[0].indices) {
-			c.Violate("block-scan-builders-disagree", "block", cas, fmt.Sprintf("%s: %v vs %s: %v", results[0].name, results[0].indices, r.name, r.indices))
+		// The two PROOF builders must report identical index lists (C11 states it for the same block and
+		// filter).  GetMatchedIndices is only held to the two bounds above: the statement allows entry
+		// points to differ inside them.
+		if len(results) == 3 && r.name == results[2].name && fmt.Sprint(r.indices) != fmt.Sprint(results[1].indices) {
+			c.Violate("block-scan-builders-disagree", "block", cas, fmt.Sprintf("%s: %v vs %s: %v", results[1].name, results[1].indices, r.name, r.indices))
 		}
 	}
 	switch {
